@@ -286,6 +286,7 @@ class Report(object):
         self.violations = {}        # mechanism_key -> dict(first witness, count, case)
         self.distinct = set()
         self.samples = []
+        self.auto_samples = []
         self.cases = 0
         self.case_idx = None
         self.harness_errors = []
@@ -300,6 +301,8 @@ class Report(object):
 
     def nontrivial(self, sig):
         self.distinct.add(h64(sig))
+        if len(self.auto_samples) < 2:
+            self.auto_samples.append({'case': self.case_idx, 'case_signature': jsonable(sig)})
 
     def sample(self, obj, limit=3):
         if len(self.samples) < limit:
@@ -321,7 +324,7 @@ class Report(object):
             'counters': dict(self.counters),
             'violations': list(self.violations.values()),
             'distinct': sorted(self.distinct),
-            'samples': self.samples,
+            'samples': self.samples or self.auto_samples,
             'harness_errors': self.harness_errors[:5],
             'sets': {k: sorted(v) for k, v in self.sets.items()},
             'fsm_stream': sorted('%s/%s' % p for p in FSM_STREAM),
